@@ -326,8 +326,16 @@ def check_history(case, ctx):
             own = rw.Evaluator(desc, ov2).raw(key)
             if own == xl.BLANK:
                 own = xl.c_num(0)
+            # ... and with the supplied values of unpopulated members unseen
+            # (the other open finding): the formula is ready before they arrive
+            ov3 = {kk: vv for kk, vv in ov2.items() if kk in ev0_cells or kk in ev.owner}
+            own3 = rw.Evaluator(desc, ov3).raw(key)
+            if own3 == xl.BLANK:
+                own3 = xl.c_num(0)
             return {'_tag': 'stale-member:', 'stale_member': True,
-                    'own_value': xl.show(own) if own is not rw.UNKNOWN else 'unknown'}
+                    'own_value': xl.show(own) if own is not rw.UNKNOWN else 'unknown',
+                    'own_value_unpopulated_members_unseen':
+                        xl.show(own3) if own3 is not rw.UNKNOWN else 'unknown'}
         if key in tainted:
             return {'_tag': 'downstream-of-stale-member:',
                     'downstream_of_stale_member': sorted(
@@ -363,10 +371,8 @@ def check_history(case, ctx):
         # a node, >= 1 member with one) write the supplied values back
         if x[0] == 'range':
             rect = list(x[1])
-        elif x[0] == 'name' and desc['names'][x[1][0]][0] == 'rng':
-            rect = list(desc['names'][x[1][0]][1:7])
         else:
-            continue
+            continue        # through a name the unchanged tree does not write them
         if gw.rect_key(desc, *rect) not in inv_ranges:
             continue
         b_, s_, c1, r1, c2, r2 = rect
